@@ -9,7 +9,7 @@ from ..signatures import op_sig, close
 from .c01 import compare_times
 
 PROPERTY_ID = "C06"
-RULE = ("programs: Hypothesis build programs (<= 7 items per circuit, nesting <= 2, 4 qubits, <= 70 unrolled operations) "
+RULE = ("programs: Hypothesis build programs (<= 7 items per circuit, nesting <= 2; part deep_nesting: <= 3 items per circuit, nesting <= 4, counts multiplying along the path; 4 qubits, <= 70 unrolled operations) "
         "with repetition counts 1..4 at every level including the top circuit (fixed and registry-provided; in about half of the cases every registry key is re-assigned 1-2 other counts and then its own again before unrolling), branching "
         "blocks, all kinds and durations, with / without a listing before unrolling. Oracle: signature multiset after "
         "apply_modifiers() = leaves x product of enclosing counts; structural correspondence with the unrolled reference "
@@ -35,6 +35,18 @@ def cfg():
 def strat():
     from hypothesis import strategies as st
     return st.fixed_dictionaries({"program": P.program_strategy(cfg()), "pre_list": st.booleans(),
+                                  "restage": st.lists(st.integers(1, 4), max_size=2)})
+
+
+def cfg_deep():
+    """Few items per circuit, nesting down to four levels with counts at every level (counts multiply along the path)."""
+    return P.GenCfg(nq=3, max_items=3, max_depth=4, p_sub=60, p_rel=30, max_reps=3, top_reps=True, reg_reps=True,
+                    globals_=True, global_zero=True, max_total_leaves=64, min_sub_items=1)
+
+
+def strat_deep():
+    from hypothesis import strategies as st
+    return st.fixed_dictionaries({"program": P.program_strategy(cfg_deep()), "pre_list": st.booleans(),
                                   "restage": st.lists(st.integers(1, 4), max_size=2)})
 
 
@@ -255,6 +267,7 @@ def body_library(case, ctx):
 
 def parts():
     return [
+        Part("deep_nesting", body, strategy=strat_deep, quick=400, thorough=2500),
         Part("dense_nesting", body, strategy=strat_dense, quick=2500, thorough=5000),
         Part("programs", body, strategy=strat, quick=800, thorough=4000),
         Part("library", body_library, items=items_library),
